@@ -100,7 +100,7 @@ func methodSig(c *core.Ctx, rel, typ, name string) *types.Signature {
 }
 
 func checkC01(c *core.Ctx, l *core.Ledger) {
-	l.Explanation = "Static clauses of C01: (TAB) the generator's per-kind dispatch tables compose into a closed chain with the runtime codec for every base type: typeName[K] = parameter type of the wire constructor ToWire[K] emits = result type of the getter FromWire[K] emits = parameter/result type of the stream method Encode[K]/Decode[K] emits, the constructor stores the type code TypeCode[K] names, and that code equals the frozen Thrift code (objects and types are compared, never names alone); the pointer variants dereference the same kinds on both paths; (DELEGATE) kinds that reach a 'call the value's own method' default are only those for which the generator declares that method (finite-domain path analysis + skeleton inspection); (ENC) on every feasible shape class of the ToWire and Encode struct templates: each field is written under its own id and the wire type of its declared type, a required field of a nillable type is rejected when nil before anything is written for it, an optional field is written exactly when set, an unset defaulted field is written as its default, union arity is enforced, struct framing is paired; container encoders reject nil elements and frame with the header of their own element type(s); (ACCESSOR) Get<F> returns the field when set, else the declared default, else the zero value; Default_<T> assigns every defaulted field. Decode-side clauses are under C05, path agreement under C04. (CONST-RENDER) scalar IDL constants (bool, integer, double, string) reach the generated text only through formatters that are injective on their type (fmt.Sprint, %v/%d/%q/%g without precision, strconv.Quote/Itoa/FormatFloat(-1,64)) and without a narrowing conversion, so the printed literal denotes exactly the IDL value. (PRED-MODEL) the template predicate isNotNil, which these rules read as 'a default is declared', answers false only for a nil value. (W-FAIL-CAUSES) the serializers of protocol/binary (StreamWriter, Writer and everything they reach in the package) originate an error only when re-wording one they received or for a wire type outside the protocol — no condition on the content or shape of a valid value (nesting depth, string content) makes a serializer fail. (PRED-ROOT) every predicate of gen that classifies a TypeSpec and is bound as a template function answers the same for a type and for a typedef of it, for every root kind — so typedef'd fields take the same serializer branches (nil slice as empty list, pointer or not, hashable or not) as plain ones. (ERR-KEEP) no error value is lost: none is assigned to a variable that is never read (an inner declaration shadowing the checked one), none is overwritten by the next loop iteration unseen, and no deferred function replaces the error result without regard to the error already there. NOT decided: byte equality with an independent codec; rendering of composite constants beyond dispatch exhaustiveness; go.* annotations; option sets other than those that are template predicates."
+	l.Explanation = "Static clauses of C01: (TAB) the generator's per-kind dispatch tables compose into a closed chain with the runtime codec for every base type: typeName[K] = parameter type of the wire constructor ToWire[K] emits = result type of the getter FromWire[K] emits = parameter/result type of the stream method Encode[K]/Decode[K] emits, the constructor stores the type code TypeCode[K] names, and that code equals the frozen Thrift code (objects and types are compared, never names alone); the pointer variants dereference the same kinds on both paths; (DELEGATE) kinds that reach a 'call the value's own method' default are only those for which the generator declares that method (finite-domain path analysis + skeleton inspection); (ENC) on every feasible shape class of the ToWire and Encode struct templates: each field is written under its own id and the wire type of its declared type, a required field of a nillable type is rejected when nil before anything is written for it, an optional field is written exactly when set, an unset defaulted field is written as its default, union arity is enforced, struct framing is paired; container encoders reject nil elements and frame with the header of their own element type(s); (ACCESSOR) Get<F> returns the field when set, else the declared default, else the zero value; Default_<T> assigns every defaulted field. Decode-side clauses are under C05, path agreement under C04. (CONST-RENDER) scalar IDL constants (bool, integer, double, string) reach the generated text only through formatters that are injective on their type (fmt.Sprint, %v/%d/%q/%g without precision, strconv.Quote/Itoa/FormatFloat(-1,64)) and without a narrowing conversion, so the printed literal denotes exactly the IDL value. (PRED-MODEL) the template predicate isNotNil, which these rules read as 'a default is declared', answers false only for a nil value. (W-FAIL-CAUSES) the serializers of protocol/binary (StreamWriter, Writer and everything they reach in the package) originate an error only when re-wording one they received or for a wire type outside the protocol — no condition on the content or shape of a valid value (nesting depth, string content) makes a serializer fail. (PRED-ROOT) every predicate of gen that classifies a TypeSpec and is bound as a template function answers the same for a type and for a typedef of it, for every root kind — so typedef'd fields take the same serializer branches (nil slice as empty list, pointer or not, hashable or not) as plain ones. (ERR-KEEP) no error value is lost: none is assigned to a variable that is never read (an inner declaration shadowing the checked one), none is overwritten by the next loop iteration unseen, and no deferred function replaces the error result without regard to the error already there. (DEFAULT-CTOR) the default constructor is declared exactly when some field has a default: DefineDefaultConstructor evaluated over every default pattern of up to three fields. NOT decided: byte equality with an independent codec; rendering of composite constants beyond dispatch exhaustiveness; go.* annotations; option sets other than those that are template predicates."
 	l.RuleText = "one obligation per table row / (template, shape class)"
 	l.Assumptions = []string{"generated helper expressions have the shape of their format strings (fmt.Sprintf with %s holes)"}
 	l.Exhaustive = true
